@@ -76,10 +76,10 @@ standard coin from the first pool to the second, bought coin to the recipient -/
 def doubleSpec (sender rcpt : Addr) (na nb : Nat) (inD std outD : Denom) (sold k bought : Nat) : List Mv :=
   [.xfer sender (poolAddr na) inD sold, .xfer (poolAddr na) (poolAddr nb) std k, .xfer (poolAddr nb) rcpt outD bought]
 
-/-- what the code does (swap.go:127,142 and 259,262): the first leg pays the standard coin to the
-recipient, the second leg takes it from the sender -/
+/-- the literal moves of the code (swap.go:129,144 and 263,266): the first leg pays the standard
+coin back to the sender, the second leg takes it from the sender; same net effect as `doubleSpec` -/
 def doubleCode (sender rcpt : Addr) (na nb : Nat) (inD std outD : Denom) (sold k bought : Nat) : List Mv :=
-  [.xfer sender (poolAddr na) inD sold, .xfer (poolAddr na) rcpt std k,
+  [.xfer sender (poolAddr na) inD sold, .xfer (poolAddr na) sender std k,
    .xfer sender (poolAddr nb) std k, .xfer (poolAddr nb) rcpt outD bought]
 
 def singleSpec (sender rcpt : Addr) (n : Nat) (inD outD : Denom) (sold bought : Nat) : List Mv :=
@@ -108,17 +108,12 @@ def stepFails (pre : State) (op : Op) (accepted : Bool) (post : State) : List (S
       | some na, some nb =>
         let sold := if buy then incr pre post (poolAddr na) inD else inA.toNat
         let bought := if buy then outA.toNat else decr pre post (poolAddr nb) outD
-        -- the intermediate amount, as seen from the first pool (paid out) or from the second (paid
-        -- in; twice when the recipient of the code's first leg is the second escrow itself)
-        let ks := [decr pre post (poolAddr na) pre.std, incr pre post (poolAddr nb) pre.std,
-                   incr pre post (poolAddr nb) pre.std / 2]
+        -- the intermediate amount, as seen from the first pool (paid out) or from the second (paid in)
+        let ks := [decr pre post (poolAddr na) pre.std, incr pre post (poolAddr nb) pre.std]
         (if buy then check (decide ((sold : Int) ≤ inA)) "max-paid"
          else if rcpt = poolAddr nb then [] else check (decide (outA ≤ (bought : Int))) "min-received") ++
-        (if ks.any (fun k => ledgerB pre.bank post.bank (doubleSpec sender rcpt na nb inD pre.std outD sold k bought)) then []
-         else if sender ≠ rcpt ∧
-                 ks.any (fun k => ledgerB pre.bank post.bank (doubleCode sender rcpt na nb inD pre.std outD sold k bought))
-           then [("double-hop-netting", "F-swap-1")]
-         else fail "swap-ledger")
+        check (ks.any (fun k => ledgerB pre.bank post.bank (doubleSpec sender rcpt na nb inD pre.std outD sold k bought)))
+          "swap-ledger"
       | _, _ => fail "swap-without-pool"
     else
       match AMap.get? pre.pools (if inD = pre.std then outD else inD) with
